@@ -118,7 +118,7 @@ def verus_files(S: Sources):
                 && final(total).values@[k].size == old(total).values@[k].size + self.values@[k].size,
         """)])
     canary = list(secs) + [ghost("canaries", CANARIES, kind="lemma")]
-    return [VerusFile("c05_helpers", secs), VerusFile("c05_canary", canary, expect_fail=True)] + time_core_files(S) + store_files(S)
+    return [VerusFile("c05_helpers", secs), VerusFile("c05_canary", canary, expect_fail=True)]
 
 
 def clear_file(S: Sources, prefix: str):
@@ -933,7 +933,8 @@ mod verif_c05_store {
 
 def build(S: Sources, tier="quick") -> Unit:
     errs = []
-    vfiles = guarded(lambda: verus_files(S), errs, [])
+    # each group on its own: a lost anchor in one must not take the others' obligations with it
+    vfiles = guarded(lambda: verus_files(S), errs, []) + guarded(lambda: time_core_files(S), errs, []) + guarded(lambda: store_files(S), errs, [])
     hs = [
         KaniHarness("verif_c05_util::slice_middle_small", "bounded", bound="slices of length <= 6 (Verus proves the unbounded contract)", covers="util::slice_middle"),
         KaniHarness("verif_c05_util::slice_ptr_index_roundtrip", "complete", covers="util::slice_ptr_index(slice, &slice[i]) == i"),
